@@ -3,6 +3,7 @@ package an
 import (
 	"fmt"
 	"go/constant"
+	"go/token"
 	"go/types"
 	"strings"
 
@@ -694,6 +695,16 @@ func (p *Prog) EnumConsts(pkgRel, typeName string) map[int64]string {
 // (as call argument/receiver, sent, stored to non-local memory) only on paths where the call's error is nil
 // (or, when alt is non-nil, alt holds).
 func (c *Check) UsesGuarded(rule, constructPrefix string, callee Callee, valIdx int, fns []*ssa.Function, alt func(s *State, use ssa.Instruction, val ssa.Value) bool) (sites int) {
+	return c.usesGuarded(rule, constructPrefix, callee, valIdx, fns, alt, false)
+}
+
+// UsesGuardedNonNil is UsesGuarded for producers that may return (nil, nil): a use additionally needs the value itself
+// to be known non-nil on the path.
+func (c *Check) UsesGuardedNonNil(rule, constructPrefix string, callee Callee, valIdx int, fns []*ssa.Function) (sites int) {
+	return c.usesGuarded(rule, constructPrefix, callee, valIdx, fns, nil, true)
+}
+
+func (c *Check) usesGuarded(rule, constructPrefix string, callee Callee, valIdx int, fns []*ssa.Function, alt func(s *State, use ssa.Instruction, val ssa.Value) bool, needNonNil bool) (sites int) {
 	for _, fn := range fns {
 		calls := Calls(fn, callee)
 		for _, call := range calls {
@@ -738,6 +749,9 @@ func (c *Check) UsesGuarded(rule, constructPrefix string, callee Callee, valIdx 
 				}
 				uses++
 				okk := errv != nil && s.IsNil(errv)
+				if okk && needNonNil && !s.NonNil(val) {
+					okk = false
+				}
 				if !okk && alt != nil {
 					okk = alt(s, ins, val)
 				}
@@ -752,7 +766,11 @@ func (c *Check) UsesGuarded(rule, constructPrefix string, callee Callee, valIdx 
 			case ex.Truncated:
 				c.Undecided(rule, construct, fn, "state budget exhausted")
 			case bad != nil:
-				c.Fail(rule, construct, fn, c.P.Pos(badAt.Pos()), ex.States, "the value result is used on a path where the call's error is not known nil", bad.Witness())
+				msg := "the value result is used on a path where the call's error is not known nil"
+				if needNonNil {
+					msg = "the value result (which may be nil together with a nil error) is used on a path where it is not known to be non-nil and the error nil"
+				}
+				c.Fail(rule, construct, fn, c.P.Pos(badAt.Pos()), ex.States, msg, bad.Witness())
 			default:
 				c.OK(rule, construct, fn, ex.States, fmt.Sprintf("%d use arrivals, all behind err==nil", uses))
 			}
@@ -794,4 +812,118 @@ func DominatingConds(ins ssa.Instruction) []struct {
 		}
 	}
 	return out
+}
+
+// ---------- NILDEREF: a (pointer|interface, error) result is dereferenced only where the error is known nil ----------
+
+// NilDerefGuard examines, in each function of fns, every call whose results are (T, …, error) with T a pointer or
+// (non-error) interface type: on every path, a *dereferencing* use of the T result (method call with it as receiver,
+// field access, load through it) needs the call's error to be known nil — or the value itself known non-nil. Passing
+// the value on or comparing it is not a use. One obligation per function; returns the number of candidate calls.
+// safeRecv names methods documented to accept a nil receiver (generated getters), by method name prefix.
+func (c *Check) NilDerefGuard(rule, constructPrefix string, fns []*ssa.Function, safeRecv func(callee *types.Func) bool) (sites int) {
+	for _, fn := range fns {
+		if fn == nil || fn.Blocks == nil {
+			continue
+		}
+		type cand struct {
+			call *ssa.Call
+			val  ssa.Value
+			errv ssa.Value
+		}
+		var cands []cand
+		for _, g := range WithClosures(fn) {
+			if g != fn {
+				continue // closures are explored at their creation site by the explorer only when entered; keep to fn itself
+			}
+			for _, b := range g.Blocks {
+				for _, ins := range b.Instrs {
+					call, ok := ins.(*ssa.Call)
+					if !ok {
+						continue
+					}
+					res := call.Call.Signature().Results()
+					if res.Len() < 2 || !isErrorType(res.At(res.Len()-1).Type()) {
+						continue
+					}
+					switch t := res.At(0).Type().Underlying().(type) {
+					case *types.Pointer:
+					case *types.Interface:
+						if isErrorType(res.At(0).Type()) {
+							continue
+						}
+						_ = t
+					default:
+						continue
+					}
+					v, e := ErrResult(call, 0), ErrResult(call, -1)
+					if v == nil || e == nil {
+						continue
+					}
+					cands = append(cands, cand{call, v, e})
+				}
+			}
+		}
+		if len(cands) == 0 {
+			continue
+		}
+		sites += len(cands)
+		construct := fmt.Sprintf("%s in %s", constructPrefix, FuncName(fn))
+		var bad *State
+		var badAt ssa.Instruction
+		var badCall *ssa.Call
+		derefs := 0
+		ex := &Explorer{P: c.P}
+		ex.OnInstr = func(s *State, ins ssa.Instruction) bool {
+			var recv []ssa.Value
+			switch x := ins.(type) {
+			case *ssa.Call, *ssa.Go, *ssa.Defer:
+				cc := x.(ssa.CallInstruction).Common()
+				if cc.IsInvoke() {
+					recv = append(recv, cc.Value)
+				} else if f := cc.StaticCallee(); f != nil && f.Signature.Recv() != nil && len(cc.Args) > 0 {
+					if fo, _ := f.Object().(*types.Func); fo == nil || safeRecv == nil || !safeRecv(fo) {
+						recv = append(recv, cc.Args[0])
+					}
+				}
+			case *ssa.FieldAddr:
+				recv = append(recv, x.X)
+			case *ssa.Field:
+				recv = append(recv, x.X)
+			case *ssa.UnOp:
+				if x.Op == token.MUL {
+					recv = append(recv, x.X)
+				}
+			case *ssa.IndexAddr:
+				if _, isPtr := x.X.Type().Underlying().(*types.Pointer); isPtr {
+					recv = append(recv, x.X)
+				}
+			}
+			for _, r := range recv {
+				k := s.Key(r)
+				for _, cd := range cands {
+					if k != c.P.Key(cd.val) {
+						continue
+					}
+					derefs++
+					if !(s.IsNil(cd.errv) || s.NonNil(cd.val)) && bad == nil {
+						bad, badAt, badCall = s.clone(), ins, cd.call
+					}
+				}
+			}
+			return true
+		}
+		ex.Run(fn, nil)
+		c.Touch(fn)
+		switch {
+		case ex.Truncated:
+			c.Undecided(rule, construct, fn, "state budget exhausted")
+		case bad != nil:
+			c.Fail(rule, construct, fn, c.P.Pos(badAt.Pos()), ex.States, fmt.Sprintf("the result of %s is dereferenced on a path where its error is not known nil (a failed call returns a nil value: nil dereference)", c.P.Describe(badCall)), bad.Witness())
+		default:
+			c.OK(rule, construct, fn, ex.States, fmt.Sprintf("%d (value, error) calls, %d dereference arrivals, all behind err==nil", len(cands), derefs))
+		}
+	}
+	c.Sites(sites)
+	return sites
 }
